@@ -57,6 +57,25 @@ class Roles:
         self.maintenance = set(prog.trait_impls.get('common::concurrent::housekeeper::InnerSync::sync', []))
         self.try_sync = {n for n in prog.bodies if any(
             e[0] == 'write' and e[1] == 'common::concurrent::housekeeper::Housekeeper' and e[2] == 'is_sync_running' for e in d.get(n, ()))}
+        # read-only list primitives, by what they read and return (names are not used)
+        R_ = lambda nid, adt, f: ('read', adt, f) in d.get(nid, ())
+        nowrite = lambda nid: not any(e[0] == 'write' for e in d.get(nid, ())) and not eff.mut_params.get(nid)
+        inlist = lambda nid: nid.startswith(('common::deque::', '<common::deque::')) or (prog.bodies[nid].root or '').startswith('common::deque::')
+        ret = lambda nid: prog.bodies[prog.bodies[nid].root or nid].locals[0]['ty']['s'] if prog.bodies[nid].kind == 'closure' else prog.bodies[nid].locals[0]['ty']['s']
+        roots = lambda S: {(prog.bodies[n].root or n) if prog.bodies[n].kind == 'closure' else n for n in S}
+        # front accessors: read Deque.head (possibly in a closure), write nothing, return the node / a pointer to it
+        self.front = roots({n for n in prog.bodies if inlist(n) and R_(n, DEQUE, 'head') and nowrite(n)})
+        self.front = {n for n in self.front if 'DeqNode' in prog.bodies[n].locals[0]['ty']['s'] and prog.bodies[n].argc == 1 and nowrite(n)
+                      and not any(e[0] == 'write' for x in prog.reachable_from([n]) for e in d.get(x, ()))}
+        # successor accessor: reads DeqNode.next, writes nothing, returns a node pointer
+        self.succ = {n for n in prog.bodies if inlist(n) and R_(n, DEQNODE, 'next') and nowrite(n) and 'DeqNode' in prog.bodies[n].locals[0]['ty']['s']
+                     and prog.bodies[n].kind != 'closure' and prog.bodies[n].argc == 1 and 'DeqNode' in prog.bodies[n].locals[1]['ty']['s']}
+        # membership test: bool, reads DeqNode.prev of the node it is given
+        self.member = {n for n in prog.bodies if inlist(n) and R_(n, DEQNODE, 'prev') and nowrite(n) and prog.bodies[n].locals[0]['ty']['s'] == 'bool'}
+        # pop: frees the front node (writes len, calls Box::from_raw) and takes no node
+        self.pop = {n for n in roots(self.unlink & self.free) if not any('NonNull<common::deque::DeqNode' in l['ty']['s'] for l in prog.bodies[n].locals[1:prog.bodies[n].argc + 1])}
+        # the non-freeing unlink of a given node
+        self.unlink_node = {n for n in self.unlink if n not in self.free}
         if not self.push or not self.unlink or not self.move or not self.free:
             raise CheckFailure('role derivation failed: deque roles push=%s unlink=%s move=%s free=%s' % (
                 sorted(self.push), sorted(self.unlink), sorted(self.move), sorted(self.free)))
@@ -89,6 +108,71 @@ def get_roles(ctx):
     if 'roles' not in ctx.cache:
         ctx.cache['roles'] = Roles(ctx)
     return ctx.cache['roles']
+
+
+def wrapper_kind(ctx, fn):
+    """(action, queue) of a cache-level deque wrapper, by what it does: action = push / unlink / move (which list primitive role it
+    reaches), queue = ao / wo (which node pointer of the entry it touches: access_order_q_node / write_order_q_node).  None for
+    anything that is not a pure list wrapper (touches the map, or is itself a list primitive)."""
+    cache = ctx.cache.setdefault('wrapper_kind', {})
+    if fn in cache:
+        return cache[fn]
+    prog, eff = ctx.prog, ctx.eff
+    R = get_roles(ctx)
+    res = None
+    b = prog.bodies.get(fn)
+    if b is not None and not fn.startswith(('common::deque::', '<common::deque::')) and b.kind != 'closure':
+        reach = prog.reachable_from([fn])
+        touches_map = any(x.startswith(('std::collections::HashMap::', 'dashmap::')) for r_ in reach for x in R.ext_calls.get(r_, ()))
+        unlink_prims = {n for n in R.unlink if any('NonNull<common::deque::DeqNode' in l['ty']['s'] for l in prog.bodies[n].locals[1:prog.bodies[n].argc + 1])}
+        act = None
+        if reach & R.push:
+            act = 'push'
+        elif reach & unlink_prims:
+            act = 'unlink'
+        elif reach & R.move:
+            act = 'move'
+        if act and not touches_map:
+            fields = {e[2] for e in eff.transitive(fn) if e[0] in ('read', 'write') and e[2] in ('access_order_q_node', 'write_order_q_node')}
+            q = None
+            if fields == {'access_order_q_node'}:
+                q = 'ao'
+            elif fields == {'write_order_q_node'}:
+                q = 'wo'
+            else:
+                tys = ' '.join(l['ty']['s'] for l in b.locals[1:b.argc + 1])
+                if 'KeyHashDate' in tys and 'KeyDate<' not in tys.replace('KeyHashDate', ''):
+                    q = 'ao'
+                elif 'KeyDate<' in tys and 'KeyHashDate' not in tys:
+                    q = 'wo'
+            res = (act, q)
+    cache[fn] = res
+    return res
+
+
+def ev_is(ctx, e, action, queue=None):
+    """Event e is a call of a deque wrapper with that action (and queue)."""
+    if e[0] != 'call' or e[1] not in ctx.prog.bodies:
+        return False
+    wk = wrapper_kind(ctx, e[1])
+    return bool(wk) and wk[0] == action and (queue is None or wk[1] == queue)
+
+
+def write_scheduler(ctx):
+    """The function that queues a write op: loops around Sender::try_send of a WriteOp (the only intended retry loop)."""
+    if 'write_scheduler' not in ctx.cache:
+        prog = ctx.prog
+        out = []
+        for n, b in prog.bodies.items():
+            if b.kind == 'closure' or not b.loops():
+                continue
+            for h, body, _ in b.loops():
+                for bi in body:
+                    t = b.blocks[bi]['term']
+                    if t['t'] == 'call' and prog.call_targets(b, t)[1] == 'crossbeam_channel::Sender::try_send' and 'WriteOp' in (t.get('self_ty') or {}).get('s', ''):
+                        out.append(n)
+        ctx.cache['write_scheduler'] = sorted(set(out))
+    return ctx.cache['write_scheduler']
 
 
 def upsert_fields(ctx):
